@@ -124,6 +124,32 @@ fn main() {
                     r.evidence["coverage"]["debug_assertions_flavour"] = serde_json::json!("not built");
                 }
             }
+            // C07 thorough: the crate rebuilt under its alternative buffer-policy feature sets
+            if prop == "C07" && tier == Tier::Thorough && r.exit != 2 {
+                let mut alts = serde_json::Map::new();
+                for name in coord::ALT_FLAVOURS {
+                    if coord::alt_exe(name).is_none() {
+                        alts.insert(name.to_string(), serde_json::json!("not built"));
+                        continue;
+                    }
+                    let cfg3 = coord::CheckCfg {
+                        prop: prop.clone(), tier, seed, workers, evaluations: (evaluations / 8).max(1),
+                        wall_cap: std::time::Duration::from_secs(wall / 4 + 5), cpu_budget: 120,
+                        write_evidence: true, quiet: false, flavour: name.to_string(),
+                    };
+                    let r3 = coord::run_check(&cfg3);
+                    let c3 = &r3.evidence["coverage"];
+                    alts.insert(name.to_string(), serde_json::json!({"evaluations": c3["evaluations"], "episodes_executed": c3["episodes_executed"], "api_calls": c3["api_calls"], "violation_signatures": c3["violation_signatures"], "probes_eviction": c3["probes"]["cache-eviction-write"]}));
+                    let v = r.evidence["violations"].as_u64().unwrap_or(0) + r3.evidence["violations"].as_u64().unwrap_or(0);
+                    r.evidence["violations"] = serde_json::json!(v);
+                    if r3.exit == 1 {
+                        r.exit = 1;
+                    } else if r3.exit == 2 && r.exit == 0 {
+                        r.exit = 2;
+                    }
+                }
+                r.evidence["coverage"]["alternative_feature_sets"] = serde_json::Value::Object(alts);
+            }
             coord::write_evidence(&prop, &r.evidence);
             let c = &r.evidence["coverage"];
             println!("evaluations={} episodes={} distinct_nontrivial={} distinct_states={} inconclusive={} api_calls={} wall_s={:.1} exit={}",
